@@ -114,6 +114,38 @@ def make_visit(evs_by_label, depth_bytes=2):
           out.append(_f('bytes_differ_after_reload',
                         f'[{sub}] model {mi}: original {ra[0]} reloaded {rb[0]}',
                         sub))
+        if len(labels) == 2 and mi == 0:
+          # save, change the recipe, save again under the same name: the second
+          # save must be refused and the files on disk must still belong
+          # together (recipe next to the model reproduces that model)
+          d = tempfile.mkdtemp(prefix='verif_c12_')
+          try:
+            q = L.quantizer.Quantizer(model)
+            ia = rs.Impl()
+            ia.qt = q
+            ia.apply(evs_by_label[labels[0]])
+            r1 = _quant(q, cal)
+            if r1[0] == 'ok':
+              q._result.save(d, 'm')
+              ia.apply(evs_by_label[labels[1]])
+              r2 = _quant(q, cal)
+              if r2[0] == 'ok':
+                try:
+                  q._result.save(d, 'm')
+                  out.append(_f('second_save_not_refused', f'[{sub}]', sub))
+                except FileExistsError:
+                  pass
+                on_disk = open(os.path.join(d, 'm.tflite'), 'rb').read()
+                c = L.quantizer.Quantizer(model, os.path.join(d, 'm_recipe.json'))
+                rc = _quant(c, cal)
+                if rc != ('ok', on_disk):
+                  out.append(_f('saved_recipe_does_not_match_saved_model',
+                                f'[{sub}]', sub))
+          except Exception as e:  # pylint: disable=broad-except
+            out.append(_f('saved_recipe_unusable',
+                          f'[{sub}]: {type(e).__name__}: {e}'[:300], sub))
+          finally:
+            shutil.rmtree(d, ignore_errors=True)
         if len(labels) == 1 and ra[0] == 'ok' and mi == 0:
           d = tempfile.mkdtemp(prefix='verif_c12_')
           try:
